@@ -38,8 +38,10 @@ Dist(v1, h1, a1, v2, h2, a2) ==
        IN IF adj > 0 THEN adj ELSE raw
 
 Vecs(d) == IF d = 3 THEN [1..3 -> -R3..R3] ELSE [1..d -> -R2..R2]
-\* adjustment pairs placed around the point where the adjusted distance changes sign
-AdjPairs(raw) == { <<p, dl - raw - p>> : p \in (IF Rich THEN {-3, 0, 4} ELSE {-3, 4}), dl \in {-1, 0, 1, 6} } \cup {<<0, 0>>, <<2, 3>>}
+\* adjustment pairs placed around the point where the adjusted distance changes sign (<<0, p, dl>>: the pair
+\* <<p, dl - raw - p>>, whose adjusted distance is dl) and two absolute pairs (<<1, a1, a2>>)
+AdjSpecs == { <<0, p, dl>> : p \in (IF Rich THEN {-3, 0, 4} ELSE {-3, 4}), dl \in {-1, 0, 1, 6} } \cup {<<1, 0, 0>>, <<1, 2, 3>>}
+AdjOf(raw, sp) == IF sp[1] = 1 THEN <<sp[2], sp[3]>> ELSE <<sp[2], sp[3] - raw - sp[2]>>
 HeightPairs == IF Rich THEN {<<0, 0>>, <<2, 0>>, <<0, 5>>, <<2, 5>>} ELSE {<<0, 0>>, <<2, 5>>}
 
 Rec(v1, h1, a1, v2, h2, a2) ==
@@ -47,14 +49,15 @@ Rec(v1, h1, a1, v2, h2, a2) ==
    sc |-> 0, m1 |-> "-", m2 |-> "-", ac |-> "-"]
 
 Pairs(d) == { p \in Vecs(d) \X Vecs(d) : IsSquare(SumSq(p[1], p[2], 1)) }
-SameDim == UNION { UNION { { Rec(p[1], hh[1], ad[1], p[2], hh[2], ad[2]) : ad \in AdjPairs(Raw(p[1], hh[1], p[2], hh[2])) }
-                           : hh \in HeightPairs } : p \in Pairs(1) \cup Pairs(2) \cup Pairs(3) }
+AllPairs == Pairs(1) \cup Pairs(2) \cup Pairs(3)
+SameDim == { Rec(p[1], hh[1], AdjOf(Raw(p[1], hh[1], p[2], hh[2]), sp)[1], p[2], hh[2], AdjOf(Raw(p[1], hh[1], p[2], hh[2]), sp)[2]) :
+               p \in AllPairs, hh \in HeightPairs, sp \in AdjSpecs }
 MVecs == {<<1>>, <<1, 2>>, <<3, 4>>, <<0, 0, 0>>, <<>>}
 Mismatch == { Rec(p[1], 1, 0, p[2], 1, 0) : p \in { q \in MVecs \X MVecs : Len(q[1]) # Len(q[2]) } }
 FloatIn == { [a |-> "in", ep |-> "float", v1 |-> <<>>, v2 |-> <<>>, h1 |-> 0, h2 |-> 0, a1 |-> 0, a2 |-> 0, sc |-> 0,
               m1 |-> m, m2 |-> n, ac |-> c] :
              m \in {"zero", "ns", "ms", "s", "max"}, n \in {"zero", "ns", "ms", "s", "max"},
-             c \in {"none", "small", "cancel", "negbig", "posbig"} }
+             c \in {"none", "small", "cancel", "negbig", "posbig", "huge"} }
 Inputs == SameDim \cup Mismatch \cup FloatIn
 
 ------------------------------------------------------------------------------
